@@ -100,7 +100,10 @@ def aggregate(results):
         for k in ("evaluations", "ops", "nontrivial", "states", "transitions", "traces", "viol_count"):
             agg[k] += r.get(k, 0)
         for sig, v in r.get("violations", {}).items():
-            agg["violations"].setdefault(sig, v)
+            old = agg["violations"].get(sig)
+            # keep the simplest witness per signature (shortest case), ties: first in shard order
+            if old is None or len(json.dumps(v["case"])) < len(json.dumps(old["case"])):
+                agg["violations"][sig] = v
         for s in r.get("samples", []):
             if len(agg["samples"]) < 6:
                 agg["samples"].append(s)
